@@ -36,7 +36,13 @@ reg("C11", "proof",
 BOUNDED_ONLY = ("bounded stand-in only so far (labelled bounded, never counted as proved): the real code is run on an enumerated "
                 "domain against a naive oracle written from the property statement; contracts for the anchored functions are "
                 "being added and move this property to level proof when their obligations discharge")
-for _pid in ["C01", "C02", "C03", "C04", "C05", "C07", "C08", "C09", "C10", "C12", "C13", "C14", "C15", "C16", "C17", "C18", "C19", "C20"]:
+reg("C03", "proof",
+    "winner-takes-all: argmin_split / argmax_split proved for every image size against 'disparity of the first extremum' "
+    "(block loops over np.array_split chunks, invariants on y_begin/x_begin), np.argmin/np.argmax/array_split as assumed "
+    "contracts; to_disp (NaN substitution/restoration, invalid pixels, frame) by the bounded stand-in until its contract is in.",
+    trusted=["assumed contract: np.argmin/np.argmax return the first index of the extremum of a NaN-free axis",
+             "assumed contract: np.array_split(a, np.arange(c, n, c), axis) yields the views a[j*c : min((j+1)*c, n)]"])
+for _pid in ["C01", "C02", "C04", "C05", "C07", "C08", "C09", "C10", "C12", "C13", "C14", "C15", "C16", "C17", "C18", "C19", "C20"]:
     reg(_pid, "other", BOUNDED_ONLY)
 
 FIX_COMMITS = ['c8eaaa2', '39f21c5', '00e445f', 'cea0f99', '62af5fc', 'd016e8e', 'a2233a1', '3bbb417', 'bdac312', '35f4fa5', 'bcaad45', '42d03b2', 'fd4d6b2', '756db6e', 'abbd602', 'a62df76']
